@@ -32,3 +32,4 @@ PROP = {
                                  "explicit method_parameter values are >= the library defaults (Gauss-Kronrod depth 5..15, Gauss-Legendre_2 points 30..100; 24..40 when nested)",
                                  "3D nesting is exercised with Gauss-Legendre, Gauss-Kronrod, Tanh-Sinh and Gauss-Legendre_2 (Adaptive-Simpson/Trapezoidal nested three deep cost 1e8-1e10 evaluations per call)"],
 }
+PROP["level_text"] += ' Limits one to four ulps apart; azimuth ranges anywhere in [-6, 14] with an integrand that sees the sign of y; explicit Gauss-Legendre_2 orders up to 700.'
